@@ -9,11 +9,13 @@
    public, per-pair verdict); observed: outcome class, storage call log, final state, and the
    keys `select * where P [limit]` returns on a clone of the prior state.
    A history case = a sequence of put / remove / delete / select statements on one storage
-   with the state observed after every statement. *)
-From Coq Require Import List String Bool Arith.
+   with the state observed after every statement.
+   A text case ([KText], below) starts from the QUERY TEXT: the whole pipeline of
+   Model/PipelineW.v (delete_text) against kvql.NewOptimizer(q).BuildPlan(store) polled until nil. *)
+From Coq Require Import List String Bool Arith ZArith.
 Import ListNotations.
-From KV Require Import Base.Bytes Model.Ast Model.Storage Model.Write Model.ScanIO Model.FilterOpt
-                       Model.ScanSem Model.Delete.
+From KV Require Import Base.Bytes Base.Flt Model.Ast Model.Value Model.Fold Model.Storage Model.Write Model.ScanIO
+                       Model.FilterOpt Model.ScanSem Model.Delete Model.Pipeline Model.PipelineW Corr.EvalCommon.
 Local Open Scope list_scope.
 Local Open Scope nat_scope.
 
@@ -42,9 +44,30 @@ Record hcase := HCase {
   hsteps : list (hop * store)          (* statement, state observed after it *)
 }.
 
+(* A text case = (DELETE statement text, what kvql.NewOptimizer(q).BuildPlan(store) returned, and --
+   in the shape of a delete case -- prior state, batch size, polling mode, the plan that was
+   built, outcome class, storage call log, final state, plus, when the harness could parse the
+   text as a DELETE itself, the keys whose pair passes the UNFOLDED WHERE tree, the LIMIT of the
+   parsed statement and what `select * where P [limit]` returns on the prior state).  The Coq side
+   runs Model/PipelineW.v delete_text (lexer, statement parser, checker, call check, constant
+   folding of the WHERE tree, region inference and the RemovePlan-shortcut test on the FOLDED
+   tree, LIMIT, scan-and-delete / direct removal) on the TEXT. *)
+Inductive dbuild :=
+  | DAccepted                  (* BuildPlan returned a plan *)
+  | DRejected (pos : Z)        (* a *SyntaxError with this Pos *)
+  | DBuildErr.                 (* any other error *)
+
+Record dtcase := DTCase {
+  tq : string;
+  tbuilt : dbuild;
+  tverd_ok : bool;             (* cmatch / climit / obs_select of [tobs] are usable: the spec verdict applies *)
+  tobs : dcase
+}.
+
 Inductive case :=
   | KDelete (d : dcase)
-  | KHistory (h : hcase).
+  | KHistory (h : hcase)
+  | KText (t : dtcase).        (* from the query text *)
 
 (* ------------------------------------------------------------------ helpers *)
 
@@ -273,6 +296,52 @@ Definition htwin_agrees (h : hcase) : bool :=
   htwin_from (hprior h) (hsteps h)
   && store_eqb (sdata (run_history (hstmts_from (hprior h) (hsteps h)) (sinit (hprior h) None))) (hfinal h).
 
+(* ------------------------------------------------------------------ from the query text *)
+
+Definition untouched (c : dcase) : bool :=
+  Nat.eqb (List.length (obs_log c)) 0 && store_eqb (obs_final c) (cstore c).
+
+(* as [dspec_code]; 8 = BuildPlan returned an error, yet the storage was touched *)
+Definition tspec_code (t : dtcase) : nat :=
+  match tbuilt t with
+  | DAccepted => if tverd_ok t then dspec_code (tobs t) else 0
+  | _ => if untouched (tobs t) then 0 else 8
+  end.
+
+(* 1 = twin and implementation differ: accepted vs rejected, the error position, the plan that
+   was built (DeletePlan over which scan, LimitPlan, RemovePlan over which keys), the write calls,
+   the final state; 99 = outside the model (Model/PipelineW.v), or the statement ended in an
+   evaluation error (a WHERE clause that is not evaluable on a pair the scan read: outside C11's
+   premise; the harness judges those runs) *)
+Definition ttwin_code (t : dtcase) : nat :=
+  let c := tobs t in
+  match delete_text prim_fops re_oom pf_fmt_v (tq t) (cB c) (sinit (cstore c) None) with
+  | (TOom, _) => 99
+  | (TReject p, s) =>
+      match tbuilt t with
+      | DRejected q => if Z.eqb p q && untouched c && store_eqb (sdata s) (cstore c) then 0 else 1
+      | _ => 1
+      end
+  | (TOk dp, s) =>
+      match tbuilt t with
+      | DAccepted =>
+          if obs_class c =? 2 then 99
+          else if (obs_class c =? 0)
+                  && dplan_eqb dp (cplan c)
+                  && log_eqb (norm_writes (slog s)) (norm_writes (obs_log c))
+                  && store_eqb (sdata s) (obs_final c)
+          then 0 else 1
+      | _ => 1
+      end
+  | (_, _) => 1
+  end.
+
+Definition check_dtext (t : dtcase) : nat :=
+  match tspec_code t with
+  | 0 => ttwin_code t
+  | k => k
+  end.
+
 (* ------------------------------------------------------------------ verdict *)
 
 (* 0 = agree; 1 = twin and implementation differ; >= 2 = the implementation's own behaviour
@@ -289,6 +358,7 @@ Definition check_case (c : case) : nat :=
       | 0 => if htwin_agrees h then 0 else 1
       | k => k
       end
+  | KText t => check_dtext t
   end.
 
 Fixpoint mism_from (i : nat) (cs : list case) : list (nat * nat) :=
